@@ -60,16 +60,28 @@ type Event struct {
 // Trace is the trace of the current replay.
 var Trace []Event
 
+// Recording says that every call the clauses may ask about goes through a recording stand-in in this replay.
+// When it is false the Trace* helpers cannot be executed faithfully and panic with GhostOnly.
+var Recording bool
+
+func needRecording() {
+	if !Recording {
+		panic(GhostOnly)
+	}
+}
+
 // TraceLen is the number of recorded calls.
-func TraceLen() int { return len(Trace) }
+func TraceLen() int { needRecording(); return len(Trace) }
 
 // TraceIs reports whether event i exists and is a call of the method whose full name ends in name.
 func TraceIs(i int, name string) bool {
+	needRecording()
 	return i >= 0 && i < len(Trace) && len(Trace[i].Name) >= len(name) && Trace[i].Name[len(Trace[i].Name)-len(name):] == name
 }
 
 // TraceBytes returns argument k of event i, which must be a byte slice (nil if there is no such event).
 func TraceBytes(i, k int) []byte {
+	needRecording()
 	if i < 0 || i >= len(Trace) || k >= len(Trace[i].Args) {
 		return nil
 	}
@@ -79,6 +91,7 @@ func TraceBytes(i, k int) []byte {
 
 // TraceRetInt returns result k of event i as an int.
 func TraceRetInt(i, k int) int {
+	needRecording()
 	if i < 0 || i >= len(Trace) || k >= len(Trace[i].Rets) {
 		return 0
 	}
@@ -88,6 +101,7 @@ func TraceRetInt(i, k int) int {
 
 // TraceRetErr returns result k of event i as an error.
 func TraceRetErr(i, k int) error {
+	needRecording()
 	if i < 0 || i >= len(Trace) || k >= len(Trace[i].Rets) {
 		return nil
 	}
@@ -132,3 +146,23 @@ func Old[T any](f func() T) T { panic(GhostOnly) }
 
 // Ranged reports whether key k was already produced by the active range loop over m. Verifier only.
 func Ranged[K comparable, V any](m map[K]V, k K) bool { panic(GhostOnly) }
+
+// TraceRetUint32 returns result k of event i as a uint32.
+func TraceRetUint32(i, k int) uint32 {
+	needRecording()
+	if i < 0 || i >= len(Trace) || k >= len(Trace[i].Rets) {
+		return 0
+	}
+	n, _ := Trace[i].Rets[k].(uint32)
+	return n
+}
+
+// TraceRetInt64 returns result k of event i as an int64.
+func TraceRetInt64(i, k int) int64 {
+	needRecording()
+	if i < 0 || i >= len(Trace) || k >= len(Trace[i].Rets) {
+		return 0
+	}
+	n, _ := Trace[i].Rets[k].(int64)
+	return n
+}
